@@ -217,7 +217,10 @@ func checkDiagnostics(res *report.Result, pc *PertCase) {
 				// attest the cause: the entity block is printed once per error diagnostic of that entity
 				cause := "other"
 				for _, d := range v.Diags {
-					if d.Severity == 1 && strings.Contains(ln, d.Code) && strings.Contains(ln, d.Message) {
+					// (the repeated block also carries the entity's warnings, so the repeated line may be of any severity)
+					// matched by code and position: the "Did you mean ...?" suffix of a message is not stable between
+					// two validations of one project
+					if strings.Contains(ln, d.Code+" at ") && strings.Contains(ln, fmt.Sprintf(":%d:%d - ", d.Range[0]+1, d.Range[1]+1)) {
 						same := 0
 						for _, o := range v.Diags {
 							if o.Severity == 1 && fmt.Sprint(o.Entity) == fmt.Sprint(d.Entity) {
@@ -240,7 +243,7 @@ func checkDiagnostics(res *report.Result, pc *PertCase) {
 
 func c18(c *orch.Ctx) (*report.Result, error) {
 	res := &report.Result{Property: "C18"}
-	ids := []string{"P1", "P4", "P5", "P6", "P7", "P8q", "P8h", "P8b", "P8f", "P9", "P10", "P11s", "P11m", "P11t", "P12", "P13a", "P13b", "P14a", "P14b", "P15", "P16", "P17", "P18", "P20", "P21", "P2", "P3b"}
+	ids := []string{"P1", "P4", "P5", "P6", "P7", "P8q", "P8h", "P8b", "P8f", "P9", "P10", "P11s", "P11m", "P11t", "P12", "P13a", "P13b", "P14a", "P14b", "P15", "P16", "P17", "P18", "P20", "P21", "P2", "P3b", "P3c", "P22", "P22d", "P15d", "P16d", "P18d", "P6d", "PX1", "PX2", "PX3", "PX4"}
 	n := 4 * len(ids)
 	if !c.Quick() {
 		n = 40 * len(ids)
